@@ -589,7 +589,10 @@ class TypeEnv:
         if name in self._assign_sites:
             self._building.add(name)
             try:
-                ts = [self._site_type(s) for s in self._assign_sites[name]]
+                sites = self._assign_sites[name]
+                if any(s[0] == 'ann' for s in sites):
+                    sites = [s for s in sites if s[0] == 'ann']      # a declared local type wins
+                ts = [self._site_type(s) for s in sites]
                 if name in self.vars and self.vars[name] != ANY:
                     ts.append(self.vars[name])
                 t = union(ts)
